@@ -246,7 +246,7 @@ class SlurmSuite(Suite):
         FakePopen.script = [(case["ret"], case["stdout"], case.get("stderr", "err"))] * 10
         result, job_id, _ = mgr.submit("f.sh")
         self._last_execs = len(FakePopen.calls)
-        return {"good": result == Status.GOOD, "id": job_id}
+        return {"model": {"good": result == Status.GOOD, "id": job_id}, "obs": {"execs": len(FakePopen.calls)}}
 
     def _hpc_config(self, case):
         from jade.models import HpcConfig
@@ -363,6 +363,15 @@ class SlurmSuite(Suite):
                                    f"squeue failed (ret={case['squeueRet']}) through all retries, yet is_complete() returned True for "
                                    f"{[i for i, c in zip(case['ids'], result['complete']) if c]}: nothing is known about these batches"))
         elif op == "slurm.submit":
+            execs = (result.get("obs") or {}).get("execs")
+            result = result.get("model", result)
+            if case["ret"] == 0 and execs is not None and execs != 1:
+                v.append(Violation("C18", "sbatch.success.retried",
+                                   f"sbatch exited 0 (stdout={case['stdout']!r}) and was executed {execs} times: retries stop at the first "
+                                   "success - the scheduler may have queued the batch every time, and an unparsable response is a failed "
+                                   "submission, not a reason to submit again"))
+            if case["ret"] != 0 and execs is not None and execs > 7:
+                v.append(Violation("C18", "sbatch.retries", f"sbatch executed {execs} times (> num_retries+1 = 7)"))
             if case["ret"] == 0 and case["has_id"] and not result.get("good"):
                 v.append(Violation("C18", "sbatch.accepted.treated_failed",
                                    f"sbatch exited 0 and printed the id (stdout={case['stdout']!r}, stderr={case.get('stderr', 'err')!r}) "
@@ -433,7 +442,7 @@ class SlurmSuite(Suite):
             if "UNKNOWN" in result["statuses"]:
                 t.append("parse.unknownWord")
         if op == "slurm.submit":
-            t.append("submit.good" if result.get("good") else "submit.error")
+            t.append("submit.good" if result.get("model", result).get("good") else "submit.error")
         if op == "slurm.retry":
             if result["executions"] == case["numRetries"] + 1 and result["ret"] != 0:
                 t.append("retry.exhausted")
